@@ -288,4 +288,49 @@ decreasing_by exact total_advance_lt (minHead_mem h)
 def unionManyK (arrays : List (Array Nat)) : M (Array Nat) :=
   pure (unionManyL ((arrays.map Array.toList).filter (· ≠ []))).toArray
 
+/-! ## set_union_merge_many as an index loop with checked accesses (C09)
+
+The concatenation `values`, the output buffer of `len(values)` words, and one `(pointer, limit)` pair per non-empty
+input (`pointers[arrnum]`, `limits[arrnum]`; traversing `range(num_arrays)` is modelled as traversing the list of
+pairs).  `values[ptr]` is a checked read, `result_view[result_len] = min_value` a checked write. -/
+
+/-- one step of the scan for the minimum -/
+def manyScanStep (values : Array Nat) (st : Option Nat) (p : Nat × Nat) : M (Option Nat) :=
+  if p.1 ≥ p.2 then pure st else do
+    let v ← rd values p.1
+    pure (match st with
+      | none => some v
+      | some m => if v < m then some v else some m)
+
+/-- one step of "advance every array whose next value is the minimum" -/
+def manyAdvStep (values : Array Nat) (mv : Nat) (p : Nat × Nat) : M (Nat × Nat) :=
+  if p.1 < p.2 then do
+    let v ← rd values p.1
+    pure (if v == mv then (p.1 + 1, p.2) else p)
+  else pure p
+
+/-- the `while 1:` loop; `fuel` bounds the number of rounds (each round consumes at least one input word) -/
+def manyLoop (values : Array Nat) (cap : Nat) : Nat → List (Nat × Nat) → Array Nat → M (Array Nat)
+  | 0, _, _ => throw (.value "set_union_merge_many: out of fuel")
+  | fuel + 1, ps, out => do
+    let m ← ps.foldlM (manyScanStep values) none
+    match m with
+    | none => pure out
+    | some mv => do
+      let out ← wr out cap mv
+      let ps ← ps.mapM (manyAdvStep values mv)
+      manyLoop values cap fuel ps out
+
+/-- `(pointer, limit)` of each array inside the concatenation: `limits = cumsum(lengths)`, `pointers = limits - lengths` -/
+def segments : Nat → List Nat → List (Nat × Nat)
+  | _, [] => []
+  | start, l :: ls => (start, start + l) :: segments (start + l) ls
+
+/-- `set_union_merge_many(arrays)` with checked accesses -/
+def unionManyChecked (arrays : List (Array Nat)) : M (Array Nat) :=
+  let vas := (arrays.map Array.toList).filter (· ≠ [])
+  if vas = [] then pure #[] else
+  let values := vas.flatten.toArray
+  manyLoop values values.size (values.size + 1) (segments 0 (vas.map List.length)) #[]
+
 end Catii.Kern
